@@ -158,7 +158,7 @@ Theorem prop_srv1_sound : forall c q gi o,
   sig_nonneg (q_cred q) ->
   prop_srv1 c (q, gi, o) = true -> so_ran o = true ->
   exists g, nth_error (v_groups c) gi = Some g /\
-    In (q_route q) (g_routes g) /\ so_route o = Some (q_route q) /\
+    In (routed (srv_clean c) q) (g_routes g) /\ so_route o = Some (routed (srv_clean c) q) /\
     (forall jc, g_jwt g = Some jc -> Accepts (tab_mac (t_mac (v_tabs c))) jc (q_jnow q) (q_cred q)) /\
     (forall sc, g_sig g = Some sc -> sg_strict sc = true -> checked (r_method (q_cs q)) = true ->
        SignedCore (tabs_rsa (v_tabs c)) (tab_cmac (t_cmac (v_tabs c))) (tabs_sha (v_tabs c))
@@ -168,8 +168,8 @@ Proof.
   apply andb_true_iff in H. destruct H as [_ H].
   destruct (nth_error (v_groups c) gi) as [g|]; [|discriminate].
   exists g. split; [reflexivity|].
-  apply andb_true_iff in H. destruct H as [HR H]. rewrite Ran in H. cbn [orb] in H.
-  rewrite !andb_true_iff in H. destruct H as [[Rt J] S].
+  rewrite Ran in H. cbn [orb] in H.
+  rewrite !andb_true_iff in H. destruct H as [[[HR Rt] J] S].
   split.
   { apply existsb_exists in HR. destruct HR as (x & I & E0). apply route_eqb_eq in E0. subst x. exact I. }
   split.
